@@ -17,8 +17,9 @@ Tie C     : seeded worlds (1-3 files, internal / external / nested / chained lin
             compress-on-close, and the cgnsconvert / cgnscompress binaries built from the working tree; the
             extracted model predicts the result tree and cgnsdiff's exact output.
 Oracle    : (independent of the model) harness/c09_ops.c walks source and result through cgio reads with its own
-            recursion and size table: dump(source, links as requested) == dump(result); cgnsdiff -d on (file, copy)
-            prints nothing and on (file, one elementary edit of the copy) prints something.
+            recursion and size table: dump(source, links as requested) == dump(result); cgnsdiff under every option set
+            (-c -i -d in all combinations, -f -q -t, dataset mode) prints nothing on (file, copy) and prints something on
+            (file, one elementary edit of the copy) exactly when the walks, read as the options ask, differ.
 """
 import concurrent.futures, copy as _copy, hashlib, json, os, re, shutil, struct, subprocess
 import vlib
@@ -70,6 +71,25 @@ def pstr(p):
     return b"/" + b"/".join(p)
 
 
+def fold(b, c=True, i=True):
+    """cgnsdiff's copy_name as the independent oracle reads the manual: -c folds case, -i drops white space"""
+    if i:
+        b = bytes(x for x in b if x not in b" \t\n\v\f\r")
+    if c:
+        b = bytes(x + 32 if 65 <= x <= 90 else x for x in b)
+    return b
+
+
+def fresh_name(rng, siblings):
+    """a random name that stays distinct from its siblings under -c and -i (collisions are the corpus' business)"""
+    used = {fold(x) for x in siblings}
+    for _ in range(200):
+        nm = nodedb.rand_name(rng, set(siblings))
+        if fold(nm) and fold(nm) not in used:
+            return nm
+    return b"node%d" % rng.randint(0, 10 ** 9)
+
+
 def rand_label(rng):
     n = rng.choice([0, 0, 1, 5, 12, 31, 32])
     return bytes(rng.choice(nodedb.NAME_ALPHA.strip()) for _ in range(n))
@@ -101,7 +121,7 @@ def gen_plain(rng, size, be, big=False, shape="mixed"):
             kl, d = lists[0] if rng.random() < 0.7 else rng.choice(lists)
         else:
             kl, d = rng.choice(lists)
-        nm = nodedb.rand_name(rng, {k["name"] for k in kl})
+        nm = fresh_name(rng, {k["name"] for k in kl})
         n = rand_data_node(rng, nm, big, be)
         kl.append(n)
         if d < 40:
@@ -122,11 +142,38 @@ def probe_subtree(rng):
     return N(PROBE, b"", kids=[
         N(b"r1", b"", "I4", [5], rb(20)), N(b"r2", b"", "R4", [3, 4], rb(48)), N(b"r3", b"", "I8", [2, 3, 4], rb(192)),
         N(b"r4", b"", "U4", [2, 2, 3, 2], rb(96)), N(b"mc", b"", "I4", [1500], rb(6000), grow=True),
-        N(b"deep", b"", kids=deep), N(b"wide", b"", kids=[N(b"c%03d" % i) for i in range(40)])])
+        # the highest ranks the node database admits (CGIO_MAX_DIMENSIONS = 12) and the one below
+        N(b"r11", b"", "R8", [1, 2, 1, 1, 2, 1, 1, 1, 1, 1, 3], rb(96)), N(b"r12", b"", "I4", [2, 1, 1, 1, 1, 3, 1, 1, 1, 1, 1, 2], rb(48)),
+        N(b"deep", b"", kids=deep), N(b"wide", b"", kids=[N(b"c%03d" % i) for i in range(40)]),
+        N(b"names", b"", kids=names_family(rng))])
+
+
+def names_family(rng):
+    """>= 44 siblings aimed at cgnsdiff's name normalisation (-c, -i): raw byte order differs from the folded order (upper
+    and lower case initials mixed: B D a c e ...; Zone 1 .. Zone10 Zone20), blanks at every interior position, all keys
+    distinct under -c, -i and both; every child has its own label and one its own data, so that a wrong pairing shows"""
+    fixed = [b"B", b"D", b"a", b"c", b"e", b"Zone 1", b"Zone 2", b"Zone 9", b"Zone10", b"Zone20", b"ZONE 3", b"zone 4",
+             b"x1 bcd", b"x2b cd", b"x3bc d", b"x4 b c d", b"X5b  cd"]
+    names, keys = [], set()
+    for nm in fixed:
+        names.append(nm); keys.add(fold(nm))
+    i = 0
+    while len(names) < 44:
+        base = bytes([97 + i % 26, 97 + (i * 7 + 3) % 26]) + b"%d" % i
+        i += 1
+        nm = bytes(c - 32 if 97 <= c <= 122 and rng.random() < 0.5 else c for c in base)
+        if rng.random() < 0.4:
+            k = rng.randint(1, len(nm) - 1); nm = nm[:k] + b" " + nm[k:]
+        if fold(nm) in keys:
+            continue
+        names.append(nm); keys.add(fold(nm))
+    rng.shuffle(names)
+    return [N(nm, b"L%d" % j, "I4", [1], struct.pack("<i", j)) if j % 5 == 0 else N(nm, b"L%d" % j) for j, nm in enumerate(names)]
 
 
 TARGETED = ["redim:r1:0", "redim:r2:0", "redim:r2:1", "redim:r3:0", "redim:r3:1", "redim:r3:2", "redim:r4:0", "redim:r4:1",
-            "redim:r4:3", "databyte:mc", "relabel:deep", "retype:r1", "retype:r2", "addchild:wide", "delchild:wide"]
+            "redim:r4:3", "redim:r12:11", "databyte:r12", "databyte:mc", "relabel:deep", "retype:r1", "retype:r2", "addchild:wide", "delchild:wide",
+            "relabel:names", "databyte:names", "rename:case", "rename:blank", "delchild:names"]
 
 
 def targeted_edit(spec, kids):
@@ -141,8 +188,35 @@ def targeted_edit(spec, kids):
         nd = list(n["dims"]); nd[i] += 1
         sz = TY[n["dt"]]; ndata = (n["data"] + b"\0" * (nodedb.prod(nd) * sz))[:nodedb.prod(nd) * sz]
         return "redim", p, [",".join(map(str, nd))], lambda k, p=p, nd=nd, ndata=ndata: node_at(k, p).update(dims=nd, data=ndata)
+    if len(t) > 1 and t[1] in ("names", "case", "blank"):
+        fam = node_at(kids, (PROBE, b"names"))["kids"]
+        order = sorted(fam, key=lambda n: fold(n["name"]))
+        if t[0] == "relabel":                      # a child in the middle of the folded order
+            n = order[len(order) // 2]; p = (PROBE, b"names", n["name"])
+            return "relabel", p, [hx(b"Changed")], lambda k, p=p: node_at(k, p).update(label=b"Changed")
+        if t[0] == "databyte":
+            n = [x for x in order if x["data"]][-1]; p = (PROBE, b"names", n["name"])
+            nd = bytearray(n["data"]); nd[-1] ^= 1
+            return "databyte", p, [str(len(nd) - 1)], lambda k, p=p, nd=bytes(nd): node_at(k, p).update(data=nd)
+        if t[0] == "delchild":
+            n = order[1]; p = (PROBE, b"names", n["name"])
+
+            def rm(k, p=p):
+                par = node_at(k, p[:-1])["kids"]
+                par[:] = [x for x in par if x["name"] != p[-1]]
+            return "delchild", p, [], rm
+        if t[1] == "case":                         # a rename that only changes the case of one letter: silent under -c
+            n = next(x for x in order if any(65 <= c <= 90 or 97 <= c <= 122 for c in x["name"]))
+            b = bytearray(n["name"]); j = next(j for j, c in enumerate(b) if 65 <= c <= 90 or 97 <= c <= 122); b[j] ^= 32
+        else:                                      # a rename that only removes a blank: silent under -i
+            n = next(x for x in order if b" " in x["name"])
+            b = bytearray(n["name"].replace(b" ", b"", 1))
+        nn = bytes(b); p = (PROBE, b"names", n["name"])
+        if any(x["name"] == nn for x in fam):
+            return None
+        return "rename", p, [hx(nn)], lambda k, p=p, nn=nn: node_at(k, p).update(name=nn)
     if t[0] == "databyte":
-        p = (PROBE, b"mc"); n = node_at(kids, p); off = len(n["data"]) - 1
+        p = (PROBE, (t[1] if len(t) > 1 else "mc").encode()); n = node_at(kids, p); off = len(n["data"]) - 1
         nd = bytearray(n["data"]); nd[off] ^= 1
         return "databyte", p, [str(off)], lambda k, p=p, nd=bytes(nd): node_at(k, p).update(data=nd)
     if t[0] == "relabel":
@@ -190,7 +264,7 @@ def gen_world(rng, be, tag, opts):
             return out
 
         def add_link(k, parent_kids, file, path):
-            nm = nodedb.rand_name(rng, {x["name"] for x in parent_kids})
+            nm = fresh_name(rng, {x["name"] for x in parent_kids})
             parent_kids.insert(rng.randint(0, len(parent_kids)), L(nm, file, path))
             flags["links"] += 1
             return nm
@@ -346,6 +420,9 @@ class Ctx:
         self.tq = ck.rng.randrange(len(TARGETED)) if hasattr(ck.rng, "randrange") else 0
         self.dist["targeted"] = {}
         self.force = []
+        self.oq = 0
+        self.mver = "cur"
+        self.dist["optsets"] = {}
 
 
 def run_ops(cx, script, cwd, timeout=300):
@@ -657,7 +734,7 @@ def pick_edit(rng, kids, fname, trees):
         kind = rng.choice(["rename", "relabel", "retype", "redim", "databyte", "addchild", "delchild"])
         if kind == "rename" and movable:
             p, n, kl = rng.choice(movable)
-            nn = nodedb.rand_name(rng, {x["name"] for x in kl})
+            nn = fresh_name(rng, {x["name"] for x in kl})
             return kind, p, [hx(nn)], lambda k, p=p, nn=nn: node_at(k, p).update(name=nn)
         if kind == "relabel" and proper:
             p, n, kl = rng.choice(proper)
@@ -696,7 +773,7 @@ def pick_edit(rng, kids, fname, trees):
             return kind, p, [str(off)], lambda k, p=p, nd=bytes(nd): node_at(k, p).update(data=nd)
         if kind == "addchild" and proper:
             p, n, kl = rng.choice(proper)
-            nn = nodedb.rand_name(rng, {x["name"] for x in n["kids"]})
+            nn = fresh_name(rng, {x["name"] for x in n["kids"]})
             return kind, p, [hx(nn)], lambda k, p=p, nn=nn: node_at(k, p)["kids"].append(N(nn))
         if kind == "delchild" and movable:
             p, n, kl = rng.choice(movable)
@@ -708,17 +785,67 @@ def pick_edit(rng, kids, fname, trees):
     return None
 
 
-def run_cgnsdiff(cx, work, a, b, follow):
-    return run_tool(cx, "cgnsdiff", ["-d"] + (["-f"] if follow else []) + [a, b], work)
+OPTSETS = ["", "c", "i", "ci", "d", "cd", "di", "cdi"]          # -c -i -d in every combination
+EXTRA = {"q": ["-q"], "t": ["-t1e-9"]}                           # -q is read by nobody; -t only matters for float data
 
 
-def model_diff(world_files, f1, f2, follow):
+def diff_args(opts, follow):
+    a = []
+    for ch in opts:
+        a += EXTRA.get(ch, ["-" + ch])
+    return a + (["-f"] if follow and "f" not in opts else [])
+
+
+def run_cgnsdiff(cx, work, a, b, follow, opts="d", ds=None):
+    """cgnsdiff [opts] a [ds] b; ds = (dataset path, recurse)"""
+    args = diff_args(opts, follow)
+    if ds:
+        return run_tool(cx, "cgnsdiff", args + (["-r"] if ds[1] else []) + [a, ds[0], b], work)
+    return run_tool(cx, "cgnsdiff", args + [a, b], work)
+
+
+def model_opts(opts, follow, recurse=False):
+    o = "".join(ch for ch in opts if ch in "dcif") + ("f" if follow and "f" not in opts else "") + ("r" if recurse else "")
+    return o or "-"
+
+
+_MVER = ["cur"]          # the matching variant the tool shows (probed by corpus 09); handed to the engine
+
+
+def model_diffs(world_files, cmds):
+    """cmds: (f1, f2, opts, follow, ds) -> the model's predicted standard output for each"""
     ms = []
     for name, be, kids in world_files:
         ms += model_file(name, be, kids)
-    ms.append("diff %s %s 1 %d" % (hx(f1.encode()), hx(f2.encode()), follow))
+    if _MVER[0] == "old":
+        ms.append("mver old")
+    for f1, f2, opts, follow, ds in cmds:
+        if ds:
+            ms.append("diffds %s %s %s %s %s" % (hx(f1.encode()), hx(ds[0].encode("latin1")), hx(f2.encode()), hx(ds[0].encode("latin1")),
+                                                 model_opts(opts, follow, ds[1])))
+        else:
+            ms.append("diff %s %s %s" % (hx(f1.encode()), hx(f2.encode()), model_opts(opts, follow)))
     sec = sections(vlib.run_model("c09", "\n".join(ms) + "\n"))
-    return sec[-1][2]
+    return [x[2] for x in sec[-len(cmds):]]
+
+
+def model_diff(world_files, f1, f2, follow, opts="d"):
+    return model_diffs(world_files, [(f1, f2, opts, follow, None)])[0]
+
+
+def norm_dump(lines, opts):
+    """the independent walk as a SET of lines, read the way the options ask: names folded (-c) / without white space (-i) in
+    every path, data hashes dropped without -d"""
+    out = set()
+    c, i, d = "c" in opts, "i" in opts, "d" in opts
+    for l in lines:
+        t = l.split(" ")
+        segs = [bytes.fromhex(x) if x != "-" else b"" for x in t[1].split("/")[1:]]
+        t[1] = "/" + "/".join(hx(fold(x, c, i)) for x in segs)
+        if t[0] == "N" and not d:
+            t = t[:-1]
+        out.add(" ".join(t))
+    return out
 
 
 def expand_model(world, follow, y):
@@ -788,24 +915,28 @@ def do_diff(cx, world, idx, scen, outs, impl, thorough):
         if copy_tree is None:
             continue
         files = [(f, be, world["trees"][f]) for f in world["order"]]
-        # (file, copy): must be silent
-        out, oc, err = run_cgnsdiff(cx, work, src, dst, follow)
+        scn = "%s %s->%s f%d" % (api, be, y, fo)
+        # (file, copy): silent under every option set
+        osets = [(o, None) for o in OPTSETS] + [("dq", None), ("dt", None), ("cdiqt", None)]
+        with concurrent.futures.ThreadPoolExecutor(max_workers=WORKERS) as ex:
+            runs = list(ex.map(lambda oo: run_cgnsdiff(cx, work, src, dst, follow, oo[0], oo[1]), osets))
+        preds = model_diffs(files + [(dst, y, copy_tree)], [(src, dst, o, follow, ds) for o, ds in osets])
         cx.dist["diff_pairs"] += 1
-        ck.cov["traces_validated_against_impl"] += 1
-        pred = model_diff(files + [(dst, y, copy_tree)], src, dst, follow)
-        rest = out
-        if oc != "ok":
-            fail(cx, world, idx, {"oracle": "cgnsdiff on (file, copy) runs", "outcome": oc, "stderr": err, "scenario": "%s %s->%s f%d" % (api, be, y, fo)})
+        bad = False
+        for (o, ds), (out, oc, err), pred in zip(osets, runs, preds):
+            ck.cov["traces_validated_against_impl"] += 1
+            cx.dist["optsets"][o] = cx.dist["optsets"].get(o, 0) + 1
+            if oc != "ok":
+                fail(cx, world, idx, {"oracle": "cgnsdiff on (file, copy) runs", "options": diff_args(o, follow), "outcome": oc, "stderr": err, "scenario": scn}); bad = True; break
+            if out:
+                fail(cx, world, idx, {"oracle": "cgnsdiff on (file, copy) is silent", "options": diff_args(o, follow), "output": out[:10], "scenario": scn}); bad = True; break
+            if out != pred:
+                cx.n_div += 1
+                cx.failures.append({"kind": "correspondence", "world": idx, "scenario": "cgnsdiff %s (file, copy) %s->%s" % (diff_args(o, follow), be, y),
+                                    "first_difference": vlib.first_divergence(pred, out)})
+        if bad:
             continue
-        if rest:
-            fail(cx, world, idx, {"oracle": "cgnsdiff -d%s on (file, copy) is silent" % (" -f" if follow else ""), "output": out[:10],
-                                  "scenario": "%s %s->%s f%d" % (api, be, y, fo)})
-            continue
-        if out != pred:
-            cx.n_div += 1
-            cx.failures.append({"kind": "correspondence", "world": idx, "scenario": "cgnsdiff (file, copy) %s->%s" % (be, y),
-                                "first_difference": vlib.first_divergence(pred, out)})
-        # (file, one elementary edit of the copy): must report
+        # (file, one elementary edit of the copy): reported exactly when the independent walk, read as the options ask, differs
         forced, cx.force = list(cx.force), []
         n_aimed = len(forced) or (3 if thorough else 2)
         for e_i in range(n_aimed + (0 if forced else (2 if thorough else 1))):
@@ -832,25 +963,47 @@ def do_diff(cx, world, idx, scen, outs, impl, thorough):
                 raise vlib.Infra("edit %s %s of %s failed: %s %s" % (kind, pstr(path), efile, eoc, sec[:1]))
             cx.dist["edits"][kind] = cx.dist["edits"].get(kind, 0) + 1
             cx.dist["diff_edits"] += 1
-            ck.cov["traces_validated_against_impl"] += 1
-            independent_differs = sec[1][2] != sec[2][2]
-            out, oc, err = run_cgnsdiff(cx, work, src, efile, follow)
-            rest = out
-            info = {"edit": kind, "path": pstr(path).decode("latin1"), "args": args, "follow": follow,
-                    "scenario": "%s %s->%s f%d" % (api, be, y, fo), "output": out[:10]}
-            if oc != "ok":
-                fail(cx, world, idx, dict(info, oracle="cgnsdiff on (file, edited copy) runs", outcome=oc, stderr=err))
-                continue
-            if independent_differs and not rest:
-                fail(cx, world, idx, dict(info, oracle="cgnsdiff -d reports a difference the independent walk finds"))
-                continue
-            if not independent_differs and rest:
-                fail(cx, world, idx, dict(info, oracle="cgnsdiff -d is silent when the independent walk finds no difference"))
-                continue
-            pred = model_diff(files + [(efile, y, edited)], src, efile, follow)
-            if out != pred:
-                cx.n_div += 1
-                cx.failures.append(dict(info, kind="correspondence", world=idx, first_difference=vlib.first_divergence(pred, out)))
+            # option sets for this edit: -d always, two more in rotation, every one when the edit aims at the names family;
+            # a float datum may legitimately vanish under -t, and a dataset run needs the node to exist in both files
+            names_edit = len(path) > 1 and path[1] == b"names"
+            osets = [("d", None)]
+            if names_edit or forced:
+                osets += [(o, None) for o in OPTSETS if o != "d"]
+            else:
+                for _ in range(2):
+                    osets.append((OPTSETS[cx.oq % len(OPTSETS)], None)); cx.oq += 1
+            osets.append(("dq", None))
+            if kind != "databyte":
+                osets.append(("cdit", None))
+            if kind in ("relabel", "retype", "redim", "databyte"):
+                pth = pstr(path).decode("latin1")
+                par = pstr(path[:-1]).decode("latin1") if len(path) > 1 else None
+                osets.append(("d", (pth, False)))
+                if par and all(32 < c < 127 or c == 32 for c in par.encode("latin1")):
+                    osets.append(("d", (par, True))); osets.append(("d", (par, False)))
+            osets = list(dict.fromkeys(osets))
+            with concurrent.futures.ThreadPoolExecutor(max_workers=WORKERS) as ex:
+                runs = list(ex.map(lambda oo: run_cgnsdiff(cx, work, src, efile, follow, oo[0], oo[1]), osets))
+            preds = model_diffs(files + [(efile, y, edited)], [(src, efile, o, follow, ds) for o, ds in osets])
+            for (o, ds), (out, oc, err), pred in zip(osets, runs, preds):
+                ck.cov["traces_validated_against_impl"] += 1
+                key = o + (":ds" + ("r" if ds[1] else "") if ds else "")
+                cx.dist["optsets"][key] = cx.dist["optsets"].get(key, 0) + 1
+                info = {"edit": kind, "path": pstr(path).decode("latin1"), "args": args, "options": diff_args(o, follow), "dataset": ds,
+                        "scenario": scn, "output": out[:10]}
+                if oc != "ok":
+                    fail(cx, world, idx, dict(info, oracle="cgnsdiff on (file, edited copy) runs", outcome=oc, stderr=err)); break
+                if ds is None:
+                    differs = norm_dump(sec[1][2], o) != norm_dump(sec[2][2], o)
+                    if differs and not out:
+                        fail(cx, world, idx, dict(info, oracle="cgnsdiff reports a difference the independent walk (read as the options ask) finds")); break
+                    if not differs and out:
+                        fail(cx, world, idx, dict(info, oracle="cgnsdiff is silent when the independent walk (read as the options ask) finds no difference")); break
+                elif ds[0] == pstr(path).decode("latin1") and not out:
+                    fail(cx, world, idx, dict(info, oracle="cgnsdiff -d on the edited node given as dataset reports it")); break
+                if out != pred:
+                    cx.n_div += 1
+                    cx.failures.append(dict(info, kind="correspondence", world=idx, first_difference=vlib.first_divergence(pred, out)))
 
 
 # ------------------------------------------------------------------------------------------------ corpus: regression inputs, run first
@@ -1033,7 +1186,49 @@ def corpus_tol_nan(cx, c):
     return {"default": out0, "with_-t1e-6": outt}
 
 
-CORPUS_KINDS = {"typed_copy": corpus_typed_copy, "diff_cross_format": corpus_diff_cross_format, "diff_deep": corpus_diff_deep,
+def corpus_collision(cx, c):
+    """also the run-time probe of the matching variant (MOld / MCur of Copy.v): the first family on the tool"""
+    ck, work = cx.ck, cx.ck.work
+    res = []
+    for k, fam in enumerate(c["families"]):
+        tree = [N(nm.encode(), b"L" + nm.encode(), "I4", [1], struct.pack("<i", j)) for j, nm in enumerate(fam["names"])]
+        f, g = "c_col%d.adf" % k, "c_col%d_copy.adf" % k
+        build_files(cx.exe["cgio_h"], work, {"be": "adf", "order": [f], "trees": {f: tree}}, ck.rng)
+        lines, oc, st = run_ops(cx, ["copyfile %s %s adf 0 r" % (f, g), "dump %s 0" % f, "dump %s 0" % g], work)
+        sec = sections(lines)
+        if oc != "ok" or len(sec) != 3 or sec[1][2] != sec[2][2]:
+            fail(cx, NOWORLD, -1, {"oracle": "copy of siblings with colliding normalised names", "outcome": oc}); continue
+        out, doc, err = run_cgnsdiff(cx, work, f, g, 0, fam["opts"])
+        ck.cov["traces_validated_against_impl"] += 1
+        if k == 0 and (doc != "ok" or out):
+            cx.mver = "old"; _MVER[0] = "old"
+            print("NOTE: cgnsdiff pairs colliding names like the code before 180fd8e (variant MOld of Copy.v); the positive theorems are about MCur", flush=True)
+        pred = model_diff([(f, "adf", tree), (g, "adf", tree)], f, g, 0, fam["opts"])
+        res.append({"names": fam["names"], "options": diff_args(fam["opts"], 0), "outcome": doc, "output": out[:4], "model": pred[:4]})
+        if doc != "ok" or out:
+            regression(cx, c, {"pair": "(file, copy)", "names": fam["names"], "options": diff_args(fam["opts"], 0), "outcome": doc, "output": out[:5], "stderr": err[:400]})
+            if (doc == "ok" and pred != out) or (doc != "ok" and "!out_of_bounds" not in pred):
+                cx.n_div += 1; cx.failures.append({"kind": "correspondence", "scenario": "corpus collision (variant %s)" % cx.mver, "model": pred, "impl": [doc] + out})
+            continue
+        if pred != out:
+            cx.n_div += 1; cx.failures.append({"kind": "correspondence", "scenario": "corpus collision (file, copy)", "model": pred, "impl": out}); continue
+        # one relabel of the second sibling in the copy: exactly that node is reported
+        nm = fam["names"][1].encode()
+        edited = _copy.deepcopy(tree); node_at(edited, (nm,))["label"] = b"Changed"
+        lines, oc, st = run_ops(cx, ["edit %s relabel %s %s" % (g, hx(b"/" + nm), hx(b"Changed"))], work)
+        out, doc, err = run_cgnsdiff(cx, work, f, g, 0, fam["opts"])
+        want = ["/%s <> /%s : labels differ" % (nm.decode(), nm.decode())]
+        pred = model_diff([(f, "adf", tree), (g, "adf", edited)], f, g, 0, fam["opts"])
+        ck.cov["traces_validated_against_impl"] += 1
+        if oc != "ok" or doc != "ok" or out != want:
+            regression(cx, c, {"pair": "(file, copy with %r relabelled)" % nm.decode(), "names": fam["names"], "options": diff_args(fam["opts"], 0),
+                               "outcome": [oc, doc], "output": out[:5], "expected": want})
+        elif pred != out:
+            cx.n_div += 1; cx.failures.append({"kind": "correspondence", "scenario": "corpus collision (file, relabelled copy)", "model": pred, "impl": out})
+    return res
+
+
+CORPUS_KINDS = {"collision": corpus_collision, "typed_copy": corpus_typed_copy, "diff_cross_format": corpus_diff_cross_format, "diff_deep": corpus_diff_deep,
                 "compress_open": corpus_compress_open, "nested_link": corpus_nested_link, "link_target": corpus_link_target,
                 "tol_nan": corpus_tol_nan}
 
@@ -1050,7 +1245,7 @@ def run_corpus(cx):
         before = (len(cx.ck.violations), len(cx.ck.known_hits), len(cx.failures))
         r = CORPUS_KINDS[c["kind"]](cx, c)
         after = (len(cx.ck.violations), len(cx.ck.known_hits), len(cx.failures))
-        res[c["name"]] = {"status": c["status"], "result": "as recorded" if before == after or (c["status"] == "known finding" and after[0] == before[0] and after[2] == before[2])
+        res[c["name"]] = {"status": c["status"], "result": "as recorded" if before == after or (c["status"] in ("known finding", "open finding") and after[2] == before[2])
                           else "CHANGED", "detail": r}
     return res
 
@@ -1106,14 +1301,14 @@ def run(ck, pid="C09"):
         "Coq 8.16.1 kernel + vm_compute", "extraction (ExtrOcamlBasic only), OCaml 4.13.1, ocaml/zutil.ml + eng_c09.ml (parser, dump printer, FNV-1a)",
         "harness/c09_ops.c (independent cgio walker with its own size table; drivers of the entry points; elementary edits), harness/cgio_h.c (file builder), harness/c09_typed.c",
         "checks/C09.py (generator, python bookkeeping of expected edited trees, comparators)",
-        "Copy.v as the meaning of the cgio queries on link ids (answers for the target) and of qsort / bisection in cgnsdiff (sorted scan)"]
+        "Copy.v as the meaning of the cgio queries on link ids (answers for the target) and of qsort on equal keys (stable; glibc merge sort); norm_dump / fold (the options read by the independent oracle)"]
     ck.assumptions = [
         "the logical tree of a file is the forest below its root: the root's own label / type / data are format specific and are not copied (depth 0)",
         "sources hold the documented data types (MT, B1 C1 I4 I8 U4 U8 R4 R8 X4 X8; for an ADF destination also with a lower-case first letter) with every array written; a compound ADF type makes the copy report an error (C09_compound_type_reports_error)",
         "a copy that returns an error (HDF5 cannot hold a typed node without dimensions; unresolvable link with follow_links) is outside the property",
         "cgnsdiff is judged on pairs whose links resolve in both files (it exits with an error otherwise); -c / -i / -t are outside the default options",
         "ADF free-space / chunk tables and all of libhdf5 are tied by this differential run only",
-        "axioms: none for 21 theorems; C09_diff_tol_nan_refuted (outside the default options) uses Flocq binary64 and inherits "
+        "axioms: none for 29 theorems; C09_diff_tol_nan_refuted (outside the default options) uses Flocq binary64 and inherits "
         "ClassicalDedekindReals.sig_forall_dec, ClassicalDedekindReals.sig_not_dec, "
         "FunctionalExtensionality.functional_extensionality_dep, Classical_Prop.classic"]
     ck.cov["rule"] = ("seeded worlds of 1-3 files in one back end (random trees of 6-110 nodes, deep chains, wide parents, all ten types, payloads around "
@@ -1122,7 +1317,9 @@ def run(ck, pid="C09"):
                       "cgnsconvert, cgio_compress_file (r and m), cgnscompress (in place and to a new file), compress-on-close; then cgnsdiff -d [-f] on "
                       "(file, copy) and on (file, copy with one elementary edit). non-trivial = the world has external and internal links or a payload "
                       "above 4096 bytes; distinct by SHA1 of the world")
+    _MVER[0] = "cur"
     ck.extra["corpus"] = run_corpus(cx)          # regression inputs first
+    ck.extra["matching_variant_validated"] = {"tool": cx.mver, "transcribed_default": "cur (MCur, /repo since 180fd8e)"}
     n = 40 if thorough else 10
     ver = dotvers()
     for i in range(n):
